@@ -124,6 +124,13 @@ class AmpOracle:
         terminal state or on a path object that was dropped are not credited)"""
         for p in ep.conn._network_paths:
             k = (ep.name, p.addr)
+            if p.is_validated and k not in self.valid:
+                # the endpoint lifted the 3x limit for an address that never proved it receives our
+                # packets: no Handshake packet authenticated from it, no PATH_RESPONSE echoed a
+                # challenge sent to it (RFC 9000 8.1 / 8.2)
+                self._bad("unjustified-validation",
+                          f"{ep.name} treats {p.addr} as validated ({p.bytes_sent} bytes sent, {self.recv.get(k, 0)} received) "
+                          f"but nothing on the wire validates it")
             if k in self.valid or p.is_validated:
                 continue
             self.n["ledger_checks"] = self.n.get("ledger_checks", 0) + 1
@@ -316,6 +323,47 @@ def directed(seed, kind, extra=()):
             sim.pending.clear()
         orc.check_ledger(sim, sim.server)
         sim.log.append(f"cert chain {chain}, source {src}")
+        return sim, orc
+    if kind == "handshake_addresses":
+        # the client's address changes DURING the handshake: each of its datagrams arrives from A or B,
+        # individual datagrams of either side are lost, the certificate flight may span several
+        # datagrams; once the server can, it sends a large response
+        from .ack_scen import advance
+        chain = r.choice(["long", "long", "medium", "small", "repo"])
+        sim = make_sim(seed, orc, extra=extra, chain=chain)
+        sim.log.append(f"cert chain {chain}")
+        sim.connect()
+        addrs = [S.CLIENT_ADDR, S.CLIENT_ADDR2]
+        p_loss = r.choice([0.15, 0.3, 0.45])
+        p_flip = r.choice([0.15, 0.3, 0.5])
+        cur = 0
+        responded = False
+        for _ in range(r.choice([60, 120])):
+            if all(ep.terminated for ep in sim.endpoints):
+                break
+            if not responded and sim.server.conn._handshake_complete:
+                sim.api(sim.server, "send_stream_data", 1, bytes(r.choice([20000, 60000])))
+                sim.transmit(sim.server)
+                responded = True
+            if not sim.pending:
+                if responded and r.random() < 0.5 and not sim.client.terminated:
+                    sim.api(sim.client, "send_ping", 1)           # keeps client datagrams (and addresses) coming
+                    sim.transmit(sim.client)
+                else:
+                    advance(sim, r.choice([0.05, 0.3, 1.0]))
+                continue
+            d = sim.pending.pop(0)
+            sim.now += 0.001
+            if r.random() < p_loss:
+                sim.log.append(f"lose #{d['id']}")
+                continue
+            if d["dst"] is sim.server:
+                if r.random() < p_flip:
+                    cur = 1 - cur                       # the client's datagrams now leave from the other address
+                sim.log.append(f"deliver #{d['id']} from {addrs[cur]}")
+                sim.deliver(d, addrs[cur])
+            else:
+                sim.deliver(d)
         return sim, orc
     if kind == "three_addresses":
         # the client moves to address B, the server challenges B with a large stream queued; the
